@@ -214,7 +214,40 @@ def known_key(c, clause='', text=''):
     if c.call == 'DIF' and 'ii-conv' in clause and any(a[0] == 'LS' and a[1] for a in L.atoms(c.A)) \
             and any(a[0] == 'LS' and a[1] for a in L.atoms(c.B)) and any(a[0] == 'PG' and a[1] for a in L.atoms(c.B)):
         keys.append('difference-structured-collection-chained-lines')
+    if low and (lines_renoded(c.A) or lines_renoded(c.B)):
+        keys.append('structured-collection-renoded-lines')
     return keys
+
+
+def lines_renoded(g):
+    """two line segments of g (of one line or of two) meet at a point that is not an end point of both: the unary union of the
+    lines inserts a computed (rounded) node there"""
+    segs = []
+    for a in L.atoms(g):
+        if a[0] == 'LS':
+            segs += [(p, q) for p, q in zip(a[1][:-1], a[1][1:]) if p != q]
+    F = lambda p: (Fraction(p[0]), Fraction(p[1]))
+    segs = [(F(p), F(q)) for p, q in segs]
+    for i in range(len(segs)):
+        for j in range(i + 1, len(segs)):
+            (a, b), (c, d) = segs[i], segs[j]
+            if not L.segs_meet(a, b, c, d): continue
+            shared = {a, b} & {c, d}
+            o = [L.orient(a, b, c), L.orient(a, b, d), L.orient(c, d, a), L.orient(c, d, b)]
+            if all(x == 0 for x in o):
+                if len(shared) == 1 and not overlap_beyond_point(a, b, c, d): continue
+                return True
+            # a single common point: fine only if it is an end point of both
+            if shared: continue
+            return True
+    return False
+
+
+def overlap_beyond_point(a, b, c, d):
+    """collinear segments sharing an end point: do they overlap in more than that point?"""
+    key = (lambda p: p[0]) if a[0] != b[0] else (lambda p: p[1])
+    lo1, hi1 = sorted([key(a), key(b)]); lo2, hi2 = sorted([key(c), key(d)])
+    return min(hi1, hi2) > max(lo1, lo2)
 
 
 # ------------------------------------------------------------------ case generation
